@@ -72,6 +72,12 @@ claimed["C13"]=dict(
    text="Proved for every bit string and flag number: IsFlagSet / SetFlag / UnsetFlag implement the RFC 4120 5.2.8 numbering and change one flag only. Decided for the current source: each codec struct field has the RFC context tag, EXPLICIT tagging, OPTIONAL-ness, string/time type and a wide-enough integer type (one obligation per field). The round-trip and length-octet clauses are covered only by bounded stand-ins (exhaustive lengths to 2^24; random values per message type), which are reported separately and never counted as proved.",
    note="Trusted: the reflection-driven ASN.1 codec, the manual transcription of the RFC tables. Bounded: MarshalLengthBytes / GetLengthFromASN, message round trips.",
    design="4/C13")
+claimed["C19"]=dict(
+   technique="contract-based deductive verification: [MS-PAC] signature-buffer layout and zeroing as quantified postconditions on the real SignatureData.Unmarshal (byte-exact reader model), acceptance conditions of PACType.verify / ProcessPACInfoBuffers / Ticket.GetPACType as postconditions with the keyed checksum as the uninterpreted RFC function shared with C07; discharged by z3/cvc5 via gowp",
+   category="proof",
+   text="For every PAC, key and keytab: PAC processing succeeds only with the mandatory buffers and a server signature equal to the keyed checksum of its declared type (usage 17) over the to-be-signed copy, under a keytab key matching the ticket; the signature buffer decoder zeroes exactly the signature octets. Faithful reporting of the account attributes (NDR decoding) is not under contract and listed as not decided.",
+   note="Trusted: et_cksum uninterpreted + MAC assumption, mstypes.Reader model, NDR buffer decoders, trusted frame of ProcessPACInfoBuffers.",
+   design="4/C19")
 hooks=subprocess.run("git -C /repo log --format='%H %s' | grep ' verif:' | awk '{print $1}'",shell=True,capture_output=True,text=True).stdout.split()
 m={"version":1,
  "setup_cmd":"./setup.sh",
